@@ -584,7 +584,25 @@ fn check_full_expr(env: &Env, e: &Expr, in_condition: bool, ex: &Excl) -> Option
             {
                 hit = Some("nested_assign_in_compare");
             }
-            Expr::Assign(None, LValue::Var(l), r) if ex.has("self_assign") && matches!(&**r, Expr::Lv(LValue::Var(v)) if v == l) => {
+            Expr::Assign(op, LValue::Var(l), r)
+                if ex.has("self_assign") && {
+                    // `v = v`, `v = (w = v)`, `v |= 0`, `v += 0` ...: no code is emitted for v
+                    fn yields(e: &Expr, l: &str) -> bool {
+                        match e {
+                            Expr::Lv(LValue::Var(v)) => v == l,
+                            Expr::Assign(None, _, r) => yields(r, l),
+                            Expr::Comma(_, b) => yields(b, l),
+                            _ => false,
+                        }
+                    }
+                    match op {
+                        None => yields(r, l),
+                        Some(BinOp::Or | BinOp::Xor | BinOp::Add | BinOp::Sub | BinOp::Shl | BinOp::Shr) => const_eval(r) == Some(0),
+                        Some(BinOp::And) => matches!(const_eval(r), Some(255) | Some(-1) | Some(65535)),
+                        _ => false,
+                    }
+                } =>
+            {
                 hit = Some("self_assign");
             }
             Expr::Bin(_, a, b)
@@ -691,14 +709,26 @@ fn first_expr(s: &Stmt) -> Option<&Expr> {
     }
 }
 
+/// last statement executed by `s` when it is straight-line (descends into blocks/labels)
+fn last_simple(s: &Stmt) -> &Stmt {
+    match s {
+        Stmt::Block(b) if !b.is_empty() => last_simple(b.last().unwrap()),
+        Stmt::Label(_, x) => last_simple(x),
+        other => other,
+    }
+}
+
 fn check_list(env: &mut Env, v: &[Stmt], ex: &Excl) -> Option<&'static str> {
-    for (i, s) in v.iter().enumerate() {
+    for (i, s0) in v.iter().enumerate() {
+        let s = last_simple(s0);
         if ex.has("incdec16_then_test") {
             if let Stmt::Expr(Expr::IncDec(_, _, LValue::Var(n))) = s {
                 if env.ty(n).map(|t| t.bits() == 16 && t != Ty::Ptr).unwrap_or(false) {
-                    if let Some(e) = v.get(i + 1).and_then(first_expr) {
-                        if mentions(e, n) {
-                            return Some("incdec16_then_test");
+                    for k in 1..=2 {
+                        if let Some(e) = v.get(i + k).and_then(first_expr) {
+                            if mentions(e, n) {
+                                return Some("incdec16_then_test");
+                            }
                         }
                     }
                 }
@@ -730,11 +760,27 @@ fn check_list(env: &mut Env, v: &[Stmt], ex: &Excl) -> Option<&'static str> {
                 }
             }
         }
-        if let Some(r) = check_stmt(env, s, ex) {
+        if let Some(r) = check_stmt(env, s0, ex) {
             return Some(r);
         }
     }
     None
+}
+
+fn vars_of(e: &Expr, out: &mut Vec<String>) {
+    walk(e, &mut |x| match x {
+        Expr::Lv(LValue::Var(n)) | Expr::Lv(LValue::Index(n, _)) | Expr::Lv(LValue::Deref(n)) => out.push(n.clone()),
+        Expr::Assign(_, LValue::Var(n), _) | Expr::IncDec(_, _, LValue::Var(n)) => out.push(n.clone()),
+        _ => {}
+    });
+}
+
+fn shares_var(a: &Expr, b: &Expr) -> bool {
+    let mut va = vec![];
+    let mut vb = vec![];
+    vars_of(a, &mut va);
+    vars_of(b, &mut vb);
+    va.iter().any(|x| vb.contains(x))
 }
 
 fn has_truth_test(e: &Expr) -> bool {
@@ -763,6 +809,19 @@ fn check_stmt(env: &mut Env, s: &Stmt, ex: &Excl) -> Option<&'static str> {
             let r = check_list(env, b, ex);
             env.locals = saved;
             r
+        }
+        Stmt::If(c, _, Some(eb))
+            if ex.has("else_after_shortcircuit") && {
+                let mut sc = false;
+                walk(c, &mut |x| {
+                    if matches!(x, Expr::Bin(BinOp::LAnd, _, _) | Expr::Bin(BinOp::LOr, _, _)) {
+                        sc = true;
+                    }
+                });
+                sc && first_expr(eb).map(|e| (has_truth_test(e) || matches!(&**eb, Stmt::If(..) | Stmt::While(..) | Stmt::Switch(..))) && shares_var(c, e)).unwrap_or(false)
+            } =>
+        {
+            Some("else_after_shortcircuit")
         }
         Stmt::If(c, a, b) => check_full_expr(env, c, true, ex)
             .or_else(|| check_stmt(env, a, ex))
